@@ -704,6 +704,9 @@ pub struct RunLog {
   pub subj_counts_final: Vec<Option<usize>>,
   /// reactions that fired, as (recorder, reaction index)
   pub reactions_fired: Vec<(usize, usize)>,
+  /// (recorder, stamp at entry, stamp at exit) of every subscriber callback, the exit taken
+  /// after the callback's reactions ran
+  pub cb_spans: Vec<(usize, u64, u64)>,
   pub reactions_skipped: Vec<(usize, usize)>,
   /// number of actions fully executed
   pub actions_done: usize,
@@ -778,6 +781,7 @@ pub fn do_subscribe(sh: &Arc<Shared>, k: usize) {
           react(&s1, k, ri, &r.what);
         }
       }
+      lk(&s1.log).cb_spans.push((k, start, arx_rt::stamp()));
     },
     move |e: RxError| {
       let _t = &t2;
@@ -789,6 +793,7 @@ pub fn do_subscribe(sh: &Arc<Shared>, k: usize) {
           react(&s2, k, ri, &r.what);
         }
       }
+      lk(&s2.log).cb_spans.push((k, start, arx_rt::stamp()));
     },
     move || {
       let _t = &t3;
@@ -800,6 +805,7 @@ pub fn do_subscribe(sh: &Arc<Shared>, k: usize) {
           react(&s3, k, ri, &r.what);
         }
       }
+      lk(&s3.log).cb_spans.push((k, start, arx_rt::stamp()));
     },
   );
   lk(&sh.subs)[k] = Some(sub);
